@@ -196,6 +196,74 @@ def shared_pairs(logic, stride):
     return out
 
 
+def _compositions(k):
+    """All ways to cut a sequence of k items into >= 2 consecutive groups."""
+    out = []
+    for mask in range(1, 1 << (k - 1)):
+        parts, cur = [], 1
+        for i in range(k - 1):
+            if (mask >> i) & 1:
+                parts.append(cur)
+                cur = 1
+            else:
+                cur += 1
+        parts.append(cur)
+        out.append(parts)
+    return out
+
+
+def regroup_trees(logic, k, outer, inner):
+    """The SAME k leaves in the same order under the same two operators, grouped differently:
+    (a or b or c) and (d or e)  /  (a or b) and (c or d or e)  / ..."""
+    leaves = [('ap', 'l%d' % i) for i in range(k)]
+    out = []
+    for parts in _compositions(k):
+        if outer in ('imp', 'U', 'R') and len(parts) != 2:
+            continue
+        groups, pos = [], 0
+        for n_ in parts:
+            g = leaves[pos:pos + n_]
+            pos += n_
+            groups.append(g[0] if n_ == 1 else (inner,) + tuple(g))
+        t = (outer,) + tuple(groups)
+        if fm.kind(logic, t) is not None:
+            out.append(t)
+    return out
+
+
+def regroup_shard(st, shard, nshards, payload):
+    wraps = {'PL': [lambda t: t, lambda t: ('not', t)],
+             'LTL': [lambda t: t, lambda t: ('G', t), lambda t: ('A', ('F', t))],
+             'CTLS': [lambda t: t, lambda t: ('A', ('G', t)), lambda t: ('X', t)],
+             'CTL': [lambda t: t, lambda t: ('A', ('G', t)), lambda t: ('not', ('E', ('X', t)))]}
+    combos = [('and', 'or'), ('or', 'and'), ('and', 'and'), ('or', 'or'), ('imp', 'and'), ('imp', 'or')]
+    i = -1
+    for logic in LOGICS:
+        ops = combos + ([('U', 'and'), ('R', 'or')] if logic in ('LTL', 'CTLS') else [])
+        for (outer, inner) in ops:
+            for k in payload['ks']:
+                trees = regroup_trees(logic, k, outer, inner)
+                for wi, w in enumerate(wraps[logic]):
+                    ts = [w(t) for t in trees]
+                    ts = [t for t in ts if fm.kind(logic, t) is not None]
+                    for a in range(len(ts)):
+                        for b in range(a + 1, len(ts)):
+                            i += 1
+                            if i % nshards != shard:
+                                continue
+                            st.evaluations += 1
+                            st.nontrivial += 1
+                            st.bump('regrouped operands')
+                            if i % 499 == 0:
+                                st.sample({'logic': logic, 'f': ts[a], 'g': ts[b]}, cls='regroup-' + logic)
+                            r = check_pair({'logic': logic, 'f': ts[a], 'g': ts[b], 'raw': bool(i % 2)}) or \
+                                check_pair({'logic': logic, 'f': ts[b], 'g': ts[a]})
+                            if r is not None:
+                                if st.failure is None:
+                                    st.failure = r
+                                return
+
+
 def shared_shard(st, shard, nshards, payload):
     i = -1
     for logic in LOGICS:
@@ -431,6 +499,14 @@ def run(ctx):
     ks = ctx.pick([6, 17, 40, 90, 140], [4, 6, 9, 13, 17, 25, 40, 60, 90, 120, 140, 200, 280])
     ctx.scopes.append('nesting: 11 chain/fold/wide shapes per logic at nesting %s: a copy, a variation of the innermost leaf, one level less' % ks)
     f = core.run_sharded(ctx, deep_shard, {'ks': ks})
+    if f is not None:
+        ctx.violation(f)
+        return
+
+    rks = ctx.pick([4, 5], [3, 4, 5, 6])
+    ctx.scopes.append('regrouped operands: the same %s leaves in the same order under the same two operators (and/or, -->, U, R over and/or groups), '
+                      'cut into groups in every possible way, bare and under unary wrappers: all pairs' % rks)
+    f = core.run_sharded(ctx, regroup_shard, {'ks': rks})
     if f is not None:
         ctx.violation(f)
         return
